@@ -164,9 +164,9 @@ static inline int64_t gen_index_sel(Rng &r)
     if (r.chance(1, 2)) return 0;
     return (int64_t)r.below(9);
 }
-static const size_t ELEM_SIZES[] = {0, 1, 2, 3, 4, 7, 8, 16, 24, 40, 0, 4, 8, 1, 64, 100, 256, 1000, 1500, 4100}; // the last four are drawn less often (see gen)
-enum { N_ELEM_SIZES = 18, N_ELEM_SIZES_ALL = 20 }; // the first 18 are what op arguments select (kept stable for old replay files); the initial size may be any of the 20
-static inline int64_t gen_zsel(Rng &r) { return r.chance(1, 12) ? 14 + (int64_t)r.below(6) : (int64_t)r.below(14); }
+static const size_t ELEM_SIZES[] = {0, 1, 2, 3, 4, 7, 8, 16, 24, 40, 0, 4, 8, 1, 64, 100, 256, 1000, 1500, 4100, 9000}; // the last four are drawn less often (see gen)
+enum { N_ELEM_SIZES = 18, N_ELEM_SIZES_ALL = 21 }; // the first 18 are what op arguments select (kept stable for old replay files); the initial size may be any of the 21
+static inline int64_t gen_zsel(Rng &r) { return r.chance(1, 12) ? 14 + (int64_t)r.below(7) : (int64_t)r.below(14); }
 static inline size_t norm_z(size_t z) { return z ? z : 1; }
 
 } // namespace sim
